@@ -3,6 +3,8 @@ package hlslx
 import (
 	"fmt"
 	"strings"
+
+	"verif/harness/xrt"
 )
 
 // Unit is a parsed HLSL translation unit.
@@ -24,6 +26,7 @@ type Unit struct {
 	// filled by the checker
 	decls       []Decl
 	refs        []Ref
+	sev         []xrt.ScopeEv // declaration / reference event stream (C16, see ScopeEvents)
 	staticErrs  []string
 	userTypes   map[string]*Type
 	funcsByName map[string][]*FuncDecl
